@@ -436,3 +436,17 @@ def QuotSpec(result, s, t, prec, rnd):
         return CRound(result, xor01(s[0], t[0]), s[1], s[2] - t[2], prec, rnd)
     g = div_extra(s[3], t[3], prec)
     return CRoundQ(result, xor01(s[0], t[0]), s[1] * pow2(g), t[1], s[2] - t[2] - g, prec, rnd)
+
+
+def RDivIntSpec(result, n, t, prec, rnd):
+    """result == round_prec(n / t) for a Python int n and canonical t != 0"""
+    if t == fnan:
+        return result == fnan
+    if is_nonfinite(t):
+        return result == fzero
+    if n == 0:
+        return result == fzero
+    sg = xor01(1 if n < 0 else 0, t[0])
+    a = -n if n < 0 else n
+    g = prec + t[3] + 5
+    return CRoundQ(result, sg, a * pow2(g), t[1], -t[2] - g, prec, rnd)
